@@ -9,7 +9,7 @@ from .. import common as C
 from . import _sched as S
 
 PROP = "C02"
-GEN_REGIONS: List[str] = ["Sched", "Utils", "SchedGlue", "ConfigGlue"]
+GEN_REGIONS: List[str] = ["Sched", "Utils", "SchedGlue", "ConfigGlue", "GlobalState"]
 THEOREMS = {
     "SpecKitV.Lemmas.Starts": ["roundHalfUp_eq", "capK_le", "capK_ge_one", "nsegRaw_ge_one", "nsegRaw_eq", "startsEven_one", "startsAccum_one",
                                "startsEven_safe", "startsAccum_safe", "startsEven_uncapped_collide"],
@@ -25,6 +25,9 @@ THEOREMS = {
     "SpecKitV.Props.SchedGlueGen": ["SchedGlue.gen_require_args_eq", "SchedGlue.gen_ltf_post_eq", "SchedGlue.gen_vec_post_glue_eq", "SchedGlue.gen_new_post_glue_eq", "SchedGlue.gen_ltf_plan_eq_model", "SchedGlue.gen_vec_plan_eq_model", "SchedGlue.gen_new_plan_eq_model", "SchedGlue.gen_lpsd_forward", "SchedGlue.gen_lpsd_plan_eq_ltf", "SchedGlue.gen_lpsd_plan_eq_model", "SchedGlue.gen_plan_missing_key", "SchedGlue.gen_lpsd_missing_key", "SchedGlue.planDict_keys", "SchedGlue.gen_plan_wiring", "SchedGlue.planDict_overlap", "SchedGlue.gen_ltf_plan_props", "SchedGlue.gen_lpsd_plan_props", "SchedGlue.gen_new_plan_props", "SchedGlue.gen_vec_plan_props", "SchedGlue.gen_plan_overlap_key"],
     "SpecKitV.Props.ConfigGlueGen": ["ConfigGlue.gen_window_eq_spec", "ConfigGlue.gen_window_explicit_olap", "ConfigGlue.gen_window_explicit_olap_ok",
                                      "ConfigGlue.gen_sched_eq_spec", "ConfigGlue.gen_sched_new_ltf", "ConfigGlue.gen_sched_callable", "ConfigGlue.gen_cg_plan_eq_model"],
+    # no state outlives a call in the files this property is anchored in (no module/class-level containers, memoisers, mutable defaults) and the
+    # decorators are exactly the audited ones (region GlobalState, re-scanned from the current source each run)
+    "SpecKitV.Props.GlobalStateGen": ["GlobalStateGen.gen_globalState_schedulers", "GlobalStateGen.gen_globalState_utils"],
 }
 CONTRACTS = ["np.round is round-half-even; Python round_half_up(v) = floor(v+1/2) (proved of the model)",
              'Python dict with string keys = association list, most recent binding first (Py.Dict in Np/SchedGlue.lean): d[k]=v (last write wins), d[k], k in d, dict(d) copies, d.update(e), dict(k=v,...)',
